@@ -1599,4 +1599,46 @@ example :=
     rfl rfl (by intro c hc; simp at hc; rcases hc with rfl | rfl <;> rfl) (by decide) (by decide)
     rfl rfl rfl (by decide) rfl rfl ⟨rfl, rfl, rfl⟩ rfl (by decide) rfl
 
+/-- **groupvm_is_corevm_partial (`while heads_are_merging:` on an or-group of single atoms, one branch matched).**  The same as
+    `groupvm_is_corevm_partial_merge_loop` for the one MERGING branch head: CoreVM's `mergeLoop` returns the forking head, the only head
+    left, ACTIVE on the marker behind the group.  Any number of branches. -/
+theorem groupvm_is_corevm_partial_merge_loop_or (fuel : Nat) (s : CoreVM.VM) (f : CoreIndex.FUid) (i : CoreIndex.Inst) (x : CoreVM.InstX)
+    (cfg : CoreVM.FlowCfg) (l mu : String) (pe fp : Nat)
+    (r : CoreIndex.HUid) (us : List (CoreIndex.HUid × Nat)) (ms : List Br) (j : Nat) (uj : CoreIndex.HUid × Nat)
+    (spec : CoreVM.Spec) (nm : String)
+    (F : CoreVM.FlowAt s f i x cfg) (C : CoreVM.OrShape cfg l mu pe)
+    (hv : CoreVM.hview i = (r, fp, CoreIndex.HeadStatus.inactive) :: CoreVM.renderB (pe + 1) us ms)
+    (hlen : us.length = ms.length) (hndu : (r :: us.map (·.1)).Nodup)
+    (hju : us[j]? = some uj) (hjm : ms[j]? = some Br.merging)
+    (hone : ∀ j' m', ms[j']? = some m' → j' ≠ j → ∃ a, m' = Br.single a)
+    (hfu : OMap.lookup mu x.forkUids = some r)
+    (hhx : ((OMap.lookup (f, r) s.r.hx).getD {}).childHeadUids = us.map (·.1))
+    (hleaf : ∀ c ∈ us.map (·.1), ((OMap.lookup (f, c) s.r.hx).getD {}).childHeadUids = [])
+    (hmu : mu ∉ us.map (·.1)) (hfp : fp ≠ pe + 1)
+    (hstarted : i.status = .started) (hq : s.r.queue = []) (hclr : s.r.cleared.contains (f, uj.1) = false)
+    (hsz4 : pe + 3 < cfg.elements.size) (hc1 : cfg.elements[pe + 2]! = .catchFail none) (hc2 : cfg.elements[pe + 3]! = .sendOp spec)
+    (hp : CoreVM.PlainSpec spec nm) (hargs : spec.args = []) (hint : CoreVM.internalEvents.contains nm = false)
+    (hcl : ((OMap.lookup (f, uj.1) s.r.hx).getD {}).catchLabels.isEmpty = false) :
+    ∃ s' i' x', CoreVM.mergeLoop (fuel + 6) [(f, uj.1)] s = .ok [(f, r)] s' ∧ CoreVM.FlowAt s' f i' x' cfg ∧
+      CoreVM.hview i' = [(r, pe + 3, CoreIndex.HeadStatus.active)] :=
+  CoreVM.or_group_mergeLoop_real fuel s f i x cfg l mu pe fp r us ms j uj spec nm F C hv hlen hndu hju hjm hone hfu hhx hleaf hmu hfp
+    hstarted hq hclr hsz4 hc1 hc2 hp hargs hint hcl
+
+-- non-vacuity of `groupvm_is_corevm_partial_merge_loop_or`
+example :=
+  groupvm_is_corevm_partial_merge_loop_or 1 exVMOrMergingHit "m"
+    { uid := "m", status := .started, heads := [
+      { uid := "h0", pos := 2, status := .inactive, elem := none }, { uid := "h1", pos := 4, status := .active, elem := none },
+      { uid := "h2", pos := 15, status := .merging, elem := none }] }
+    exXFork exCfgOrHit "e" "u" 14 2 "h0" [("h1", 4), ("h2", 7)] [.single 0, .merging] 1 ("h2", 7) (exSpec "Hit") "Hit"
+    { hi := rfl, hx := rfl, hc := rfl } { hl := rfl, hsize := by decide, hm := rfl } rfl rfl (by decide) rfl rfl
+    (by
+      intro j' m' h1 h2
+      rcases j' with _ | _ | j'
+      · simp at h1; subst h1; exact ⟨0, rfl⟩
+      · exact absurd rfl h2
+      · simp at h1)
+    rfl rfl (by intro c hc; simp at hc; rcases hc with rfl | rfl <;> rfl) (by decide) (by decide)
+    rfl rfl rfl (by decide) rfl rfl ⟨rfl, rfl, rfl⟩ rfl (by decide) rfl
+
 end NemoVerif.C07
